@@ -109,6 +109,12 @@ pub mod rrt;
 #[path = "path_plan/rrt_to.rs"]
 mod rrt_to;
 
+#[cfg(all(feature = "verif_hooks", feature = "stroke_planning"))]
+pub use rrt_to::dual_rrt_connect as verif_dual_rrt_connect;
+
+#[cfg(all(feature = "verif_hooks", feature = "allow_filesystem"))]
+pub use simplify_joint_name::preprocess_joint_name as verif_preprocess_joint_name;
+
 #[cfg(test)]
 #[cfg(feature = "allow_filesystem")]
 mod tests;
